@@ -258,7 +258,7 @@ prop("C11", "exploration",
      [
          {"test": "TestC11_ClientDecoders", "quick": {"checks": 3000, "timeout": 300},
           "thorough": {"checks": 100000, "shards": 16, "timeout": 1500}},
-         {"test": "TestC11_Malformed", "quick": {"checks": 12000, "timeout": 400},
+         {"test": "TestC11_Malformed", "quick": {"checks": 8000, "shards": 4, "timeout": 400},
           "thorough": {"checks": 100000, "shards": 16, "timeout": 3000}},
          {"fuzz": "FuzzC11Receive", "thorough": {"fuzztime": "120s", "workers": 8, "timeout": 500}},
          {"fuzz": "FuzzC11CellBlock", "thorough": {"fuzztime": "120s", "workers": 8, "timeout": 500}},
